@@ -387,6 +387,17 @@ func stageLifecycleRules(c *core.Ctx, s *Stage, o lifecycleOpts) {
 				}
 			}
 			if !sends {
+				// a worker of a pool that sends nothing on this channel: when the channel is handed to the caller
+				// and closed by another goroutine, its close is the stage's completion signal (ForEach / Void: done)
+				// and must still be ordered after every worker's last piece of work
+				if returned[k] && pr.g != nil && pr.g.InLoop && owner.g != nil && doesStageWork(s, pr) {
+					if why := waitGroupOrders(s, owner, pr, k); why != "" {
+						okSend = false
+						c.Fail("no-send-after-close", label, pr.fn.Pos(), "the channel is closed by %s as the completion signal, but worker %s is not ordered before that close: %s", owner.name, pr.name, why)
+					} else {
+						detail = "workers are counted by the WaitGroup the closer waits for; Done after their last work"
+					}
+				}
 				continue
 			}
 			why := waitGroupOrders(s, owner, pr, k)
@@ -903,7 +914,7 @@ func accountedReceive(s *Stage, pr *proc, st *ir.Step) string {
 			}
 		}
 	}
-	if wait == nil || !wait.Instr.Block().Dominates(st.Instr.Block()) {
+	if wait == nil || !instrDominates(wait.Instr, st.Instr) {
 		return "no wg.Wait dominating the receive"
 	}
 	// number of receives: trip count of the innermost loop (or 1)
@@ -989,7 +1000,7 @@ func waitGroupOrders(s *Stage, closer, sender *proc, k string) string {
 				dom := false
 				for _, q := range closer.an.AllPaths() {
 					for j := range q.Steps {
-						if isWgWait(&q.Steps[j]) && q.Steps[j].Instr.Block().Dominates(e.step.Instr.Block()) && q.Steps[j].Instr != e.step.Instr {
+						if isWgWait(&q.Steps[j]) && q.Steps[j].Instr != e.step.Instr && instrDominates(q.Steps[j].Instr, e.step.Instr) {
 							dom = true
 							wg = q.Steps[j].A[0]
 						}
@@ -1129,4 +1140,41 @@ func addAccounts(parent *ir.Analysis, wg *ir.Term, g *Goroutine, inst *ir.Term) 
 		return nil, "wg.Add does not precede the go statement"
 	}
 	return add, ""
+}
+
+// instrDominates: instruction a is executed before instruction b on every path that reaches b (same function): a's
+// block strictly dominates b's, or both sit in one block with a first.
+func instrDominates(a, b ssa.Instruction) bool {
+	if a == nil || b == nil || a.Parent() != b.Parent() {
+		return false
+	}
+	ba, bb := a.Block(), b.Block()
+	if ba != bb {
+		return ba.Dominates(bb)
+	}
+	for _, in := range ba.Instrs {
+		if in == a {
+			return true
+		}
+		if in == b {
+			return false
+		}
+	}
+	return false
+}
+
+// doesStageWork: the goroutine applies the user's function or receives from a channel parameter of the stage.
+func doesStageWork(s *Stage, pr *proc) bool {
+	for _, p := range pr.an.AllPaths() {
+		for i := range p.Steps {
+			st := &p.Steps[i]
+			if isApplyRole(st) {
+				return true
+			}
+			if st.Kind == ir.KRecv && len(st.A) > 0 && st.A[0].Op == "param" {
+				return true
+			}
+		}
+	}
+	return false
 }
